@@ -136,7 +136,7 @@ func (cs c09Case) matches(v int, err error) bool {
 }
 
 func checkC09(rep *vk.Report) {
-	rep.Rule = "scenario = hedge policy (maxHedges 0-4; fixed delay, per-hedge delays from a delay function, or 'quick up to hedge j then 1h'; cancel conditions default/predicate/nil-error/exact-result/never) at a placement {alone, Retry(H), Timeout(H), Fallback(H), H(Timeout)}, sync/async; attempts either last a multiple of the delay or block, or (gates mode) all block on gates released in a chosen permutation; matching and non-matching outcomes carry unique values. A probe policy outside the hedge brackets each application. Oracles: <= maxHedges+1 function entries per application; k-th OnHedge no earlier than t0 + sum of the first k delays; with a 1h next delay no hedge starts after a result was produced; the returned value was produced by an attempt with the same error; a matching result makes the call return while all other attempts are still blocked; without a match the call returns only after all maxHedges+1 attempts exited; at return every other started attempt is cancelled and the winner is not; a function entry after the return sees a cancelled context; exactly one attempt has IsHedge()==false and the number with true equals the OnHedge events; yield points in the hedge loop perturbed. Non-trivial: >=1 hedge started; distinct by (maxHedges, delays kind, cancel kind, mode, placement, completion order, winner index)."
+	rep.Rule = "scenario = hedge policy (maxHedges 0-4; fixed delay, per-hedge delays from a delay function, or 'quick up to hedge j then 1h'; cancel conditions default/predicate/nil-error/exact-result/never) at a placement {alone, Retry(H), Timeout(H), Fallback(H), H(Timeout)}, sync/async; attempts either last a multiple of the delay or block, or (gates mode) all block on gates released in a chosen permutation; matching and non-matching outcomes carry unique values. A probe policy outside the hedge brackets each application. Oracles: <= maxHedges+1 function entries per application; k-th OnHedge no earlier than t0 + sum of the first k delays; no OnHedge event follows the return of an accepted result; the returned value was produced by an attempt with the same error; a matching result makes the call return while all other attempts are still blocked; without a match the call returns only after all maxHedges+1 attempts exited; at return every other started attempt is cancelled and the winner is not; a function entry after the return sees a cancelled context; exactly one attempt has IsHedge()==false and the number with true equals the OnHedge events; yield points in the hedge loop perturbed. Non-trivial: >=1 hedge started; distinct by (maxHedges, delays kind, cancel kind, mode, placement, completion order, winner index)."
 	rep.Assumptions = []string{
 		"A7: which non-matching result is returned is not judged beyond 'produced by an attempt after all finished'; 'no hedge after acceptance' is decided only where the next delay is 1h",
 		"hedge timing is judged on the k-th OnHedge event (emitted by the policy's own loop), not on function entry order",
